@@ -17,7 +17,10 @@ header of the def/block and its body, so running a template is structural recurs
 is called from two places appears twice with the same header – hence the same key.
 
 The back end is an abstract map `(cache id, region, key) ⇀ value` obeying the `CacheImpl` contract
-(`get_or_create` stores what it creates, `invalidate` removes, `set`/`get`); which of the keyword
+(`get_or_create` stores what it creates, `invalidate` removes, `set`/`get`; an implementation that honours
+`Cache.starttime` – Beaker, the in-tree reference back end – treats entries stored before the asking template was
+compiled as absent, which is what keeps a template that *replaces* another one under the same URI from being served
+its predecessor's entries); which of the keyword
 arguments select the container ("region") is a parameter `Backend.regionOf` of the model (Beaker: `type`,
 `dir`, …).  The state also carries the *trace*: the back-end calls as a recording `CacheImpl` sees them,
 the execution counter's ticks, and ghost events (which branch a cached wrapper took; for every completed creation
@@ -171,12 +174,15 @@ def finish (h : Hdr) (o : Str) : Str := if h.filtered then wrapD o else o
 def returnsValue (h : Hdr) : Bool :=
   if h.cached then h.buffered && (!isInline h.kind || inlinePassesBuffered) else h.buffered
 
-/-- what appears in the output at the place of invocation when the section's value is `v` -/
+/-- what appears in the output at the place of invocation when the section's value is `v`: a def call `${f(..)}` writes
+    what the callable wrote and then its (possibly filtered) return value; a block's call site writes the block's return
+    value too iff `blockResultWritten` (regenerated from `visitBlockTag`; true since /repo 248d875 – before, a buffered
+    block's content was dropped) -/
 def deliver (h : Hdr) (site : Bool) (v : Str) : Str :=
   if isCall h.kind then
     if returnsValue h then (if site then wrapS v else v)
     else v ++ (if site then wrapS [] else [])
-  else if returnsValue h then [] else v
+  else if returnsValue h && !blockResultWritten then [] else v
 
 /-! ## templates, back end, state -/
 
@@ -197,6 +203,7 @@ def cid (tm : Tmpl) : Str := moduleId tm.uri
 structure Backend (R : Type) where
   regionOf : Kw → R                -- which container the keyword arguments select
   passContext : Bool               -- `CacheImpl.pass_context`
+  honoursStarttime : Bool          -- entries stored before `Cache.starttime` (the template's compile stamp) count as absent
 
 inductive BeOp
   | goc | set (v : Str) | get | inv
@@ -211,6 +218,9 @@ abbrev Key (R : Type) := Str × R × Str        -- (cache id, region, key)
 /-- store, `cache_enabled` flags and `_def_regions` memos: everything a render's result depends on -/
 structure Snap (R : Type) where
   store : Key R → Option Str
+  times : Key R → Nat
+  stamp : Nat → Nat
+  clock : Nat
   enabled : Nat → Bool
   regions : Nat → List (Str × Kw)
 
@@ -230,21 +240,40 @@ inductive Ev (R : Type)
   | bypass (tid : Nat) (fn : Str)                                         -- ghost: `cache_enabled` was false
   | created (tid : Nat) (fn : Str) (K : Key R) (v : Str) (c : Creation R)  -- ghost: creation function returned `v`, stored
   | enabledSet (tid : Nat) (b : Bool)                                     -- ghost: `template.cache_enabled = b`
+  | compiled (tid : Nat)                                                  -- ghost: the template was (re)compiled now
 
 structure St (R : Type) where
   store : Key R → Option Str
+  times : Key R → Nat                          -- when the entry under a key was stored (logical clock)
+  stamp : Nat → Nat                            -- `Cache.starttime` = `module._modified_time` of each template
+  clock : Nat                                  -- advances with every store
   enabled : Nat → Bool
   regions : Nat → List (Str × Kw)             -- `Cache._def_regions` of each template
   trace : List (Ev R)                          -- newest first
 
 variable {R : Type} [DecidableEq R]
 
-def St.snap (st : St R) : Snap R := { store := st.store, enabled := st.enabled, regions := st.regions }
-/-- a state with that store / flags / memos and an empty trace -/
-def Snap.toSt (s : Snap R) : St R := { store := s.store, enabled := s.enabled, regions := s.regions, trace := [] }
+def St.snap (st : St R) : Snap R :=
+  { store := st.store, times := st.times, stamp := st.stamp, clock := st.clock, enabled := st.enabled,
+    regions := st.regions }
+/-- a state with that store / stamps / flags / memos and an empty trace -/
+def Snap.toSt (s : Snap R) : St R :=
+  { store := s.store, times := s.times, stamp := s.stamp, clock := s.clock, enabled := s.enabled, regions := s.regions,
+    trace := [] }
 def St.emit (st : St R) (e : Ev R) : St R := { st with trace := e :: st.trace }
 def St.put (st : St R) (K : Key R) (v : Str) : St R :=
-  { st with store := fun K' => if K' = K then some v else st.store K' }
+  { st with store := fun K' => if K' = K then some v else st.store K'
+            times := fun K' => if K' = K then st.clock else st.times K'
+            clock := st.clock + 1 }
+def St.setStamp (st : St R) (t : Nat) : St R :=
+  { st with stamp := fun t' => if t' = t then st.clock else st.stamp t' }
+
+/-- what the back end answers for `K` when asked on behalf of template `tid`: the stored value, unless the
+    implementation honours `starttime` and the entry was stored before the template's compile stamp -/
+def visible (be : Backend R) (st : St R) (tid : Nat) (K : Key R) : Option Str :=
+  match st.store K with
+  | some v => if be.honoursStarttime && decide (st.times K < st.stamp tid) then none else some v
+  | none => none
 def St.del (st : St R) (K : Key R) : St R :=
   { st with store := fun K' => if K' = K then none else st.store K' }
 def St.setRegions (st : St R) (t : Nat) (r : List (Str × Kw)) : St R :=
@@ -279,7 +308,7 @@ def scope (P : Params R) (h : Hdr) (env : Env) (arg : Option Expr) : Env :=
 
 /-- Rendering.  For a cached section this is the generated wrapper calling `Cache._ctx_get_or_create`, which
     either runs the creation function (`cache_enabled` false), or asks the back end, which runs it iff it has no
-    value under the key and stores what it returned. -/
+    (sufficiently recent, see `visible`) value under the key and stores what it returned. -/
 def run (P : Params R) (env : Env) : Items → St R → Str × St R
   | .nil, st => ([], st)
   | .text s rest, st =>
@@ -304,7 +333,7 @@ def run (P : Params R) (env : Env) : Items → St R → Str × St R
         let g := getCacheKw P.tm.cacheArgs (st.regions P.tid) (fname h) (sectionKw P.tm.page h env')
         let K : Key R := (cid P.tm, P.be.regionOf g.1, key)
         let st0 := (st.setRegions P.tid g.2).emit (.call P.tid .goc (cid P.tm) key (addCtx P.be.passContext g.1))
-        match st.store K with
+        match visible P.be st P.tid K with
         | some v => (v, st0.emit (.enter P.tid (fname h) K (.hit v)))
         | none =>
           let st1 := st0.emit (.enter P.tid (fname h) K .miss)
@@ -325,6 +354,7 @@ inductive Op
   | set (t : Nat) (k : Str) (v : Str) (kw : Kw)
   | get (t : Nat) (k : Str) (kw : Kw)
   | setEnabled (t : Nat) (b : Bool)
+  | compile (t : Nat)              -- the template object under this index is constructed (compiled) now
   deriving Repr
 
 inductive Resp
@@ -377,14 +407,21 @@ def step (w : World R) (st : St R) : Op → Resp × St R
     | none => (.noTemplate, st)
     | some tm =>
       let a := aUpdate tm.cacheArgs kw
-      (.got (st.store (cid tm, w.be.regionOf a, k)), st.emit (.call t .get (cid tm) k a))
+      (.got (visible w.be st t (cid tm, w.be.regionOf a, k)), st.emit (.call t .get (cid tm) k a))
   | .setEnabled t b =>
     match w.tmpls[t]? with
     | none => (.noTemplate, st)
     | some _ => (.unit, (st.setEnabled t b).emit (.enabledSet t b))
+  | .compile t =>
+    match w.tmpls[t]? with
+    | none => (.noTemplate, st)
+    | some _ => (.unit, (st.setStamp t).emit (.compiled t))
 
 def St.init (w : World R) : St R :=
   { store := fun _ => none
+    times := fun _ => 0
+    stamp := fun _ => 0
+    clock := 0
     enabled := fun t => match w.tmpls[t]? with | some tm => tm.enabled0 | none => true
     regions := fun _ => []
     trace := [] }
